@@ -38,7 +38,10 @@ def normalise(lines):
 def run_proc(args):
     """Runs one process with a script of abstract commands; returns the event list for Trace_Session."""
     binary, script, proc = args
-    s = uci.Session(binary)
+    # "-slowexit" processes run the hooked binary with the window between bestmove and the release of the search
+    # state widened (timing perturbation: a GUI command arriving right after bestmove finds the search thread still there)
+    env = {"TCHERAN_VERIF_DELAY_MS": "exit=60"} if "slowexit" in proc else None
+    s = uci.Session(binary, env=env)
     events = [{"cmd": "start", "i": 0, "v": 0, "p": "", "d": 0, "out": "", "proc": proc}]
     nready = 0
     problems = []
@@ -70,6 +73,7 @@ def main():
     q = chk.quick
     rng = chk.rng
     bins = {"dev": vlib.build_engine("dev", hooks=False)}
+    hooked = vlib.build_engine("dev", hooks=True)
     if not q:
         bins["release"] = vlib.build_engine("release", hooks=False)
     procs = []
@@ -109,6 +113,7 @@ def main():
             procs.append((b, setup + H + restore + [("newgame",)] + S, "%s-afternewgame-%d" % (prof, i)))
             procs.append((b, setup + S + S, "%s-again-%d" % (prof, i)))          # warm tables: second S differs from the first but
             procs.append((b, setup + S + S, "%s-again2-%d" % (prof, i)))         # must equal the second S of an identical process
+        procs.append((hooked, setup + H + restore + [("newgame",)] + S, "dev-slowexit-afternewgame-%d" % i))
     results = vlib.pmap(run_proc, procs, n=8)
     events = []
     n_go = 0
